@@ -172,6 +172,8 @@ pub struct ProbeLog {
   /// 0 = never; k = the probe reports `is_finished()` once it has seen k
   /// notifications ("I have enough") without having been terminated
   pub finish_after: AtomicUsize,
+  /// fault: k > 0 = panic once, right after the k-th notification was recorded
+  pub panic_at: AtomicUsize,
 }
 
 impl ProbeLog {
@@ -209,6 +211,11 @@ impl ProbeLog {
     self.inside.fetch_sub(1, SeqCst);
     let out = sh.stamp();
     self.recs.lock().unwrap()[idx].seq_out = out;
+    let k = self.panic_at.load(SeqCst);
+    if k != 0 && idx + 1 == k {
+      self.panic_at.store(0, SeqCst);
+      panic!("injected fault: the subscriber's callback panics");
+    }
   }
 }
 
